@@ -368,8 +368,8 @@ Proof.
   destruct (_ =? IndentedCodeBlockKind).
   { unfold matchIndented. cbv zeta. destruct (_ <? _); [destruct (negb _)|]; cbn [snd]; try apply ccP_consumeIndent; assumption. }
   destruct (_ =? HTMLBlockKind).
-  { unfold matchHTML. destruct (htmlEnd _ _); [|assumption]. cbn [snd]. apply ccP_consumeLine.
-    destruct (negb _); [apply ccP_collectInline|]; assumption. }
+  { unfold matchHTML. destruct (htmlEnd _ _); [|assumption]. destruct (isRestBlank _); [assumption|]. cbn [snd]. apply ccP_consumeLine.
+    apply ccP_collectInline; assumption. }
   assumption.
 Qed.
 
@@ -403,8 +403,8 @@ Proof.
   destruct (_ =? IndentedCodeBlockKind).
   { unfold matchIndented. cbv zeta. destruct (_ <? _); [destruct (negb _)|]; cbn [snd]; try reflexivity; apply cd_same, same_consumeIndent. }
   destruct (_ =? HTMLBlockKind); [|reflexivity].
-  unfold matchHTML. destruct (htmlEnd _ _); [|reflexivity]. cbn [snd]. rewrite (cd_same _ _ (same_consumeLine _)).
-  destruct (negb _); [apply cdepth_collectInline|reflexivity].
+  unfold matchHTML. destruct (htmlEnd _ _); [|reflexivity]. destruct (isRestBlank _); [reflexivity|]. cbn [snd]. rewrite (cd_same _ _ (same_consumeLine _)).
+  apply cdepth_collectInline.
 Qed.
 
 Lemma ccP_descend_loop : forall fuel p d, ccP p -> (exists x, getAt d (root p) = Some x) -> ccP (snd (descend_loop fuel p d)).
